@@ -50,6 +50,18 @@ CHECKS = {
              'listed child reports its lister as parent, no element is listed by two parents or twice, iteration / len / in / [] '
              '/ named lookup agree, one version and one level per tree.',
         note='trusted: the invariant evaluator (public observers only); rejected calls are transitions too'),
+    'C12': dict(
+        engine=E2, design_ref='DESIGN.md section 7 C12',
+        technique='explicit-state breadth-first search: every state reachable by set/add/delete/copy histories x every rejecting '
+                  'operation; before/after equality of the complete public observation on every transition that raises',
+        text='9 roots (Segment TOLERANT/STRICT and inside a Message, Field T/S, flat Message T/S, Group T/S); building alphabet of '
+             '16 operations plus ~35 rejecting operations (wrong class, wrong / foreign / unknown name, other validation level or '
+             'version by add / assignment / indexed assignment, cardinality overflow, invalid and over-long values under STRICT, '
+             'absent child or index deletion, foreign remove, datatype change on a populated element, value text of another '
+             'segment / message, value whose children are refused midway); all histories to depth 3 (thorough 4): ~5,000 states, '
+             '~40,000 transitions. Whenever a call raises, encoding, recursive listing (class, name, datatype, text per node) and '
+             'per-name repetitions of target, donor and ancestor must be unchanged and the C10 invariants must hold.',
+        note='trusted: public observers; exception classes are not judged here'),
     'C13': dict(
         engine=E1, design_ref='DESIGN.md section 7 C13',
         technique='exhaustive enumeration of date / time-of-day / offset / fraction grids, single-position substitutions and '
